@@ -13,14 +13,15 @@ def TInv (s : St) : Thread → Prop
   | .prod p pc cur _ =>
       ((pc ≠ .idle ∧ pc ≠ .send ∧ pc ≠ .undo ∧ pc ≠ .ret) → s.mon.mark p ≤ s.mon.wr cur) ∧
       (pc = .send → s.mon.mark p + 1 ≤ s.mon.sch cur) ∧
-      ((pc = .undo ∨ pc = .ret) → s.mon.mark p + 1 ≤ s.mon.sch cur ∨ s.mon.stopCalled = true) ∧
+      ((pc = .undo ∨ pc = .ret) → s.mon.passed p = true → s.mon.mark p + 1 ≤ s.mon.sch cur) ∧
+      ((pc ≠ .idle ∧ pc ≠ .cas ∧ pc ≠ .send ∧ pc ≠ .undo ∧ pc ≠ .ret) → s.mon.passed p = false) ∧
       ((pc = .inc ∨ pc = .chkRun ∨ pc = .cas ∨ pc = .send ∨ pc = .undo ∨ pc = .ret) → s.once = 3) ∧
       ((pc = .startUnlock ∨ pc = .onceEnd) → s.spawned = true)
-  | .stopper _ pc =>
+  | .stopper id pc =>
       (pc ≠ .idle → s.mon.stopCalled = true) ∧
       (pc = .store → s.running = true ∧ s.added = true) ∧
       (pc = .wait → s.added = true) ∧
-      ((pc = .unlock ∨ pc = .ret) → s.wpc = .exited ∨ ∀ o, s.mon.need o = 0)
+      ((pc = .unlock ∨ pc = .ret) → s.wpc = .exited ∨ ∀ o, (s.mon.snap id) o = 0)
   | _ => True
 
 structure LInv (s : St) : Prop where
